@@ -854,6 +854,8 @@ def call_builtin(I, fv: BoundV, args: list, kwargs: dict, st, node=None) -> list
             if name == "get":
                 k = args[0]
                 d = args[1] if len(args) > 1 else kwargs.get("default")
+                if not h.fields:
+                    return [(d, st)]  # empty map: every key misses
                 if hashable(k) and not isinstance(k, (Text, CharSet, SeqStr)):
                     return [(h.fields.get(k, d), st)]
                 if isinstance(k, SeqStr) or isinstance(k, (Text, CharSet)):
